@@ -156,7 +156,20 @@ func (e *Engine) fieldID(st *types.Struct, i int) int {
 	return id
 }
 
+// canonType removes type aliases (also below pointers / slices) so that a type has one identity.
+func canonType(t types.Type) types.Type {
+	switch x := types.Unalias(t).(type) {
+	case *types.Pointer:
+		return types.NewPointer(canonType(x.Elem()))
+	case *types.Slice:
+		return types.NewSlice(canonType(x.Elem()))
+	default:
+		return x
+	}
+}
+
 func (e *Engine) typeID(t types.Type) int {
+	t = canonType(t)
 	k := types.TypeString(t, nil)
 	if id, ok := e.typeIDs[k]; ok {
 		return id
